@@ -19,4 +19,4 @@ require (
 	golang.org/x/text v0.9.0 // indirect
 )
 
-replace github.com/markusmobius/go-domdistiller => /tmp/seeded.ncouq4c0/repo
+replace github.com/markusmobius/go-domdistiller => /repo
